@@ -467,7 +467,70 @@ func specToGo(e SExpr, names map[string]string, consts map[string]*big.Int, n *i
 	case SIndex:
 		a, ok1 := specToGo(x.X, names, consts, n)
 		i, ok2 := specToGo(x.I, names, consts, n)
-		return a + "[" + i + "]", ok1 && ok2
+		return a + "[zzint(" + i + ")]", ok1 && ok2
+	case SQuant:
+		// bounded universal quantifier: forall i :: lo <= i && i < hi [&& ...] ==> body
+		if !x.Forall || len(x.Vars) != 1 {
+			return "", false
+		}
+		imp, ok := x.Body.(SBinary)
+		if !ok || imp.Op != "==>" {
+			return "", false
+		}
+		v := x.Vars[0]
+		var lo, hi string
+		var conj func(e SExpr)
+		inner := map[string]string{}
+		for k, val := range names {
+			inner[k] = val
+		}
+		*n++
+		gv := fmt.Sprintf("zzq%d", *n)
+		inner[v] = gv
+		okAll := true
+		var rest []string
+		conj = func(e SExpr) {
+			if b, ok := e.(SBinary); ok && b.Op == "&&" {
+				conj(b.X)
+				conj(b.Y)
+				return
+			}
+			if b, ok := e.(SBinary); ok {
+				if id, isID := b.Y.(SIdent); isID && id.Name == v && b.Op == "<=" && lo == "" {
+					if g, ok := specToGo(b.X, names, consts, n); ok {
+						lo = g
+						return
+					}
+				}
+				if id, isID := b.X.(SIdent); isID && id.Name == v && (b.Op == "<" || b.Op == "<=") && hi == "" {
+					if g, ok := specToGo(b.Y, names, consts, n); ok {
+						hi = g
+						if b.Op == "<=" {
+							hi = "zzadd(" + g + ", 1)"
+						}
+						return
+					}
+				}
+			}
+			g, ok := specToGo(e, inner, consts, n)
+			if !ok {
+				okAll = false
+			}
+			rest = append(rest, g)
+		}
+		conj(imp.X)
+		if lo == "" || hi == "" || !okAll {
+			return "", false
+		}
+		body, ok := specToGo(imp.Y, inner, consts, n)
+		if !ok {
+			return "", false
+		}
+		guard := "true"
+		for _, r := range rest {
+			guard += " && " + r
+		}
+		return fmt.Sprintf("func() bool { for %s := zzint(%s); %s < zzint(%s); %s++ { if (%s) && !(%s) { return false } }; return true }()", gv, lo, gv, hi, gv, guard, body), true
 	case SUnary:
 		a, ok := specToGo(x.X, names, consts, n)
 		return "(" + x.Op + a + ")", ok
@@ -488,6 +551,12 @@ func specToGo(e SExpr, names map[string]string, consts map[string]*big.Int, n *i
 			return "!zzeq(" + a + ", " + c + ")", true
 		case "<", "<=", ">", ">=":
 			return "(zzcmp(" + a + ", " + c + ") " + x.Op + " 0)", true
+		case "+":
+			return "zzadd(" + a + ", " + c + ")", true
+		case "-":
+			return "zzsub(" + a + ", " + c + ")", true
+		case "*":
+			return "zzmul(" + a + ", " + c + ")", true
 		}
 		return "(" + a + " " + x.Op + " " + c + ")", true
 	case SCall:
@@ -506,6 +575,12 @@ func specToGo(e SExpr, names map[string]string, consts map[string]*big.Int, n *i
 			}
 			g, ok := specToGo(pd.Body, inner, consts, n)
 			return "(" + g + ")", ok
+		}
+		if x.Fn == "ite" && len(x.Args) == 3 {
+			c0, ok0 := specToGo(x.Args[0], names, consts, n)
+			a0, ok1 := specToGo(x.Args[1], names, consts, n)
+			b0, ok2 := specToGo(x.Args[2], names, consts, n)
+			return "zzite(" + c0 + ", " + a0 + ", " + b0 + ")", ok0 && ok1 && ok2
 		}
 		switch x.Fn {
 		case "len", "cap", "int", "int8", "int16", "int32", "int64", "uint", "uint8", "uint16", "uint32", "uint64", "byte":
@@ -550,6 +625,7 @@ func (u *Unit) buildReplay(o *Obligation, prop string, timeoutS int) *ReplayInfo
 			fmt.Fprintf(&h0, "(assert (<= %s 8))\n", sr.len.S)
 		}
 	}
+	script += beIntGrounding(script)
 	var z *z3sess
 	var status string
 	var err error
@@ -564,6 +640,33 @@ func (u *Unit) buildReplay(o *Obligation, prop string, timeoutS int) *ReplayInfo
 		}
 		if extra != "" {
 			z.close()
+		}
+	}
+	if status != "sat" {
+		// no model within the limit: search a candidate in the relaxed context without quantified
+		// assumptions (an over-approximation); only the replay on the real code can confirm it
+		z.close()
+		var relaxed strings.Builder
+		for _, l := range strings.Split(script, "\n") {
+			if strings.Contains(l, "(forall ") && strings.HasPrefix(l, "(assert ") && !strings.HasPrefix(l, "(assert (not ") {
+				continue
+			}
+			relaxed.WriteString(l)
+			relaxed.WriteByte('\n')
+		}
+		for _, extra := range []string{h2.String() + h0.String(), h2.String() + h1.String(), h2.String(), ""} {
+			z, status, err = startZ3(relaxed.String()+extra, timeoutS)
+			if err != nil {
+				ri.Reason = "model session: " + err.Error()
+				return ri
+			}
+			if status == "sat" {
+				ri.Reason = strings.TrimSpace(ri.Reason + " candidate input from the relaxed context (quantified assumptions dropped);")
+				break
+			}
+			if extra != "" {
+				z.close()
+			}
 		}
 	}
 	defer z.close()
@@ -812,6 +915,9 @@ func zznum(v interface{}) (*zzbig.Int, bool) {
 	if v == nil {
 		return nil, false
 	}
+	if b, ok := v.(*zzbig.Int); ok {
+		return b, true
+	}
 	rv := zzreflect.ValueOf(v)
 	switch rv.Kind() {
 	case zzreflect.Int, zzreflect.Int8, zzreflect.Int16, zzreflect.Int32, zzreflect.Int64:
@@ -821,6 +927,32 @@ func zznum(v interface{}) (*zzbig.Int, bool) {
 	}
 	return nil, false
 }
+
+func zzbigof(v interface{}) *zzbig.Int {
+	if b, ok := v.(*zzbig.Int); ok {
+		return b
+	}
+	if x, ok := zznum(v); ok {
+		return x
+	}
+	return zzbig.NewInt(0)
+}
+func zzadd(a, b interface{}) *zzbig.Int { return new(zzbig.Int).Add(zzbigof(a), zzbigof(b)) }
+func zzsub(a, b interface{}) *zzbig.Int { return new(zzbig.Int).Sub(zzbigof(a), zzbigof(b)) }
+func zzmul(a, b interface{}) *zzbig.Int { return new(zzbig.Int).Mul(zzbigof(a), zzbigof(b)) }
+func zzint(v interface{}) int            { return int(zzbigof(v).Int64()) }
+func zzite(c bool, a, b interface{}) interface{} {
+	if c {
+		return a
+	}
+	return b
+}
+
+var _ = zzadd
+var _ = zzsub
+var _ = zzmul
+var _ = zzint
+var _ = zzite
 
 func zzisnil(v interface{}) bool {
 	if v == nil {
@@ -858,3 +990,71 @@ func zzcmp(a, b interface{}) int {
 var _ = zzcmp
 var _ = zzeq
 `
+
+// beIntGrounding adds, for the model search only, the true ground fact that ties be_int of a 32-byte
+// (or shorter) content term to the bytes it abstracts, so that models agree with real big-endian
+// decoding and replays follow the modelled path.
+func beIntGrounding(script string) string {
+	var out strings.Builder
+	seen := map[string]bool{}
+	idx := 0
+	for {
+		i := strings.Index(script[idx:], "(be_int (bytes_content ")
+		if i < 0 {
+			break
+		}
+		start := idx + i + len("(be_int ")
+		// balanced s-expression starting at start
+		depth := 0
+		end := start
+		for end < len(script) {
+			if script[end] == '(' {
+				depth++
+			} else if script[end] == ')' {
+				depth--
+				if depth == 0 {
+					end++
+					break
+				}
+			}
+			end++
+		}
+		term := script[start:end]
+		idx = end
+		if seen[term] || strings.Contains(term, "_q") {
+			continue
+		}
+		seen[term] = true
+		toks := sexpTokens(term)
+		// (bytes_content A off len): parse the three arguments
+		var args []string
+		pos := 2
+		var parse func() string
+		parse = func() string {
+			t := toks[pos]
+			pos++
+			if t != "(" {
+				return t
+			}
+			var parts []string
+			for pos < len(toks) && toks[pos] != ")" {
+				parts = append(parts, parse())
+			}
+			pos++
+			return "(" + strings.Join(parts, " ") + ")"
+		}
+		for k := 0; k < 3 && pos < len(toks); k++ {
+			args = append(args, parse())
+		}
+		if len(args) != 3 {
+			continue
+		}
+		var sum []string
+		for k := 0; k < 32; k++ {
+			w := new(big.Int).Lsh(big.NewInt(1), uint(8*(31-k)))
+			sum = append(sum, fmt.Sprintf("(* %s (mod (select %s (sidx %s %d)) 256))", w.String(), args[0], args[1], k))
+		}
+		fmt.Fprintf(&out, "(assert (=> (= %s 32) (= (be_int %s) (+ %s))))\n", args[2], term, strings.Join(sum, " "))
+	}
+	return out.String()
+}
